@@ -206,6 +206,7 @@ func (c *Ctx) resolveAliases() []string {
 		match(af.Body, bodyPrints, "body")
 	}
 	match(af.Loose, loose, "signature")
+	notes = append(notes, c.structuralAliases()...)
 	return notes
 }
 
@@ -232,4 +233,94 @@ func sigString(sig *types.Signature, q types.Qualifier) string {
 		v = "..."
 	}
 	return "func" + tuple(sig.Params()) + v + tuple(sig.Results())
+}
+
+// structuralAliases recognises a few compiler primitives by what they do when
+// neither the name nor a fingerprint identifies them any more.
+//
+//	resolveLocal: func(... name string) int that scans a `.locals` table
+//	downward, compares `.name` with the string parameter, and has -1 as its
+//	not-found result.
+func (c *Ctx) structuralAliases() []string {
+	var notes []string
+	if _, done := aliasByName("parser.resolveLocal"); done {
+		return nil
+	}
+	for obj, fd := range c.funcDecls {
+		f, ok := obj.(*types.Func)
+		if !ok || fd.Body == nil || f.Pkg() == nil || f.Pkg().Path() != bclPath {
+			continue
+		}
+		if rawQName(f) == "parser.resolveLocal" {
+			return nil // present under its own name
+		}
+	}
+	var cands []types.Object
+	for obj, fd := range c.funcDecls {
+		f, ok := obj.(*types.Func)
+		if !ok || fd.Body == nil || f.Pkg() == nil || f.Pkg().Path() != bclPath {
+			continue
+		}
+		sig := f.Type().(*types.Signature)
+		if sig.Results().Len() != 1 || !isInt(sig.Results().At(0).Type()) {
+			continue
+		}
+		hasStr := false
+		for i := 0; i < sig.Params().Len(); i++ {
+			if types.TypeString(sig.Params().At(i).Type(), nil) == "string" {
+				hasStr = true
+			}
+		}
+		if !hasStr {
+			continue
+		}
+		locals, name, minus1, loop := false, false, false, false
+		ast.Inspect(fd.Body, func(n ast.Node) bool {
+			switch x := n.(type) {
+			case *ast.ForStmt:
+				loop = true
+			case *ast.SelectorExpr:
+				if x.Sel.Name == "locals" {
+					locals = true
+				}
+				if x.Sel.Name == "name" {
+					name = true
+				}
+			case *ast.ReturnStmt:
+				if len(x.Results) == 1 {
+					if k, ok := c.intConst(x.Results[0]); ok && k == -1 {
+						minus1 = true
+					}
+				}
+			}
+			return true
+		})
+		// it must not modify the table
+		writes := false
+		ast.Inspect(fd.Body, func(n ast.Node) bool {
+			if as, ok := n.(*ast.AssignStmt); ok {
+				for _, l := range as.Lhs {
+					if _, isSel := stripParens(l).(*ast.SelectorExpr); isSel {
+						writes = true
+					}
+				}
+			}
+			if _, ok := n.(*ast.IncDecStmt); ok {
+				if ids := n.(*ast.IncDecStmt); true {
+					if _, isSel := stripParens(ids.X).(*ast.SelectorExpr); isSel {
+						writes = true
+					}
+				}
+			}
+			return true
+		})
+		if locals && name && minus1 && loop && !writes {
+			cands = append(cands, obj)
+		}
+	}
+	if len(cands) == 1 {
+		aliasOf[cands[0]] = "parser.resolveLocal"
+		notes = append(notes, fmt.Sprintf("%s is taken to be resolveLocal (by what it does: a read-only downward scan of the locals table by name, -1 when not found)", rawQName(cands[0].(*types.Func))))
+	}
+	return notes
 }
